@@ -6,7 +6,7 @@ import numpy as np
 import torch
 
 from harness.lib import Case
-from harness.stubs import patched_bisect
+from harness.stubs import NotElementwise, patched_bisect
 from symtorch import api, ctx as cx, facades, terms as tm
 from symtorch import tensor as st
 from symtorch.api import elem
